@@ -3,6 +3,8 @@ from __future__ import annotations
 
 import ast
 
+from typing import Optional
+
 from ..core import Run, AnalysisError, dotted, norm, PKG, VERIF, Source, Mod
 from ..dim import World, SYMBOLIC_WRAPPERS, Interp
 from ..imports import ImportSim, name_edges, sccs, module_events
@@ -96,6 +98,14 @@ def module_effects(mod: Mod) -> list[tuple[ast.AST, str, str]]:
 
     visit(mod.tree.body)
     return out
+
+
+def _is_solve_dict(v: ast.AST) -> bool:
+    """solve(..., dict=True)[k] or solve(..., dict=True) or linsolve/nonlinsolve results"""
+    if isinstance(v, ast.Subscript):
+        v = v.value
+    return isinstance(v, ast.Call) and (dotted(v.func) or "").split(".")[-1] in ("solve", "dsolve") \
+        and any(k.arg == "dict" and isinstance(k.value, ast.Constant) and k.value.value is True for k in v.keywords)
 
 
 def _i3_idgen(run: Run) -> None:
@@ -260,6 +270,49 @@ def check(run: Run) -> None:
                         out.add(v.ident)
             return out
 
+        defs: dict = {}
+        for st in m.tree.body:
+            if isinstance(st, ast.Assign) and len(st.targets) == 1 and isinstance(st.targets[0], ast.Name):
+                defs.setdefault(st.targets[0].id, []).append(st.value)
+
+        PURE_CALLS = {"sin", "cos", "tan", "exp", "log", "sqrt", "Eq", "Abs", "abs", "Derivative", "Integral", "Mul", "Add", "Pow", "sinh", "cosh", "tanh", "atan", "atan2",
+                      "asin", "acos", "Rational", "S", "sympify"}
+
+        def expanded(e: ast.AST, depth: int = 4, seen=None) -> list:
+            """sub-expressions that are certainly part of the value of `e`: the expression itself and, through names bound once at module level,
+            their defining expressions - but only across constructions (arithmetic, elementary functions, applications of function symbols).
+            Anything that can REMOVE symbols again (subs, solve, simplify, .rhs of something solved, ...) ends the expansion: what it returns
+            need not contain what its source text mentions."""
+            seen = seen if seen is not None else set()
+            out = []
+
+            def visit(x, d):
+                if isinstance(x, (ast.BinOp, )):
+                    visit(x.left, d)
+                    visit(x.right, d)
+                elif isinstance(x, ast.UnaryOp):
+                    visit(x.operand, d)
+                elif isinstance(x, ast.Attribute):
+                    out.append(x)
+                elif isinstance(x, ast.Name):
+                    out.append(x)
+                    if d > 0 and x.id in defs and x.id not in seen and len(defs[x.id]) == 1:
+                        seen.add(x.id)
+                        visit(defs[x.id][0], d - 1)
+                elif isinstance(x, ast.Call):
+                    fv = it.ev(x.func) if isinstance(x.func, (ast.Name, ast.Attribute)) else None
+                    nm = (dotted(x.func) or "").split(".")[-1]
+                    if (fv is not None and fv.kind == "func") or (isinstance(x.func, ast.Name) and nm in PURE_CALLS):
+                        out.append(x)
+                        for a in x.args:
+                            visit(a, d)
+                elif isinstance(x, (ast.Tuple, ast.List)):
+                    for el in x.elts:
+                        visit(el, d)
+
+            visit(e, depth)
+            return out
+
         def rank(k: ast.AST):
             """SymPy orders a dict of replacements by (count_ops, number of args, name); keys of equal rank are tie-broken by name"""
             if isinstance(k, (ast.Name, ast.Attribute)):
@@ -286,7 +339,24 @@ def check(run: Run) -> None:
             ranks = [rank(k) if k is not None else None for k in d.keys]
             reported = False
             for i, ri in enumerate(ranks):
-                if ri is None or ri[0] != "symbol" or reported:
+                if ri is None or reported:
+                    continue
+                if ri[0].startswith("application/"):
+                    # two applied function symbols f(t), g(t) with the same number of arguments have equal rank too: the order of the
+                    # two entries is the order of the generated class names (FUN<n>)
+                    for j, rj in enumerate(ranks):
+                        if i == j or rj is None or rj[0] != ri[0]:
+                            continue
+                        if any(isinstance(x, ast.Call) and norm(x) == ri[1] for x in expanded(d.values[j])):
+                            run.violate("I6", f"{name}:subs:{norm(d.keys[i], 50)}<-{norm(d.keys[j], 50)}", m, call,
+                                        f"`{norm(d.keys[i], 50)}` is replaced in the same .subs({{...}}) whose entry `{norm(d.keys[j], 50)}: {norm(d.values[j], 40)}` "
+                                        f"introduces it again; both keys are applied function symbols of the same arity, so SymPy applies them in the order of the generated "
+                                        f"class names (FUN<n>, compared as strings): the result depends on how many functions were created before "
+                                        f"(use simultaneous=True or separate .subs calls)")
+                            reported = True
+                            break
+                    continue
+                if ri[0] != "symbol":
                     continue
                 vi = it.ev(d.values[i])
                 if isinstance(d.values[i], (ast.Name, ast.Attribute)) and vi.ident == ri[1]:
@@ -294,7 +364,7 @@ def check(run: Run) -> None:
                 for j, rj in enumerate(ranks):
                     if i == j or rj is None or rj[0] != ri[0]:
                         continue
-                    if ri[1] in idents(d.values[j]):
+                    if any(ri[1] in idents(e_) for e_ in expanded(d.values[j]) if isinstance(e_, (ast.Name, ast.Attribute))):
                         run.violate("I6", f"{name}:subs:{norm(d.keys[i], 50)}<-{norm(d.keys[j], 50)}", m, call,
                                     f"`{norm(d.keys[i], 50)}` is replaced in the same .subs({{...}}) whose entry `{norm(d.keys[j], 50)}: {norm(d.values[j], 40)}` "
                                     f"introduces it again; both keys are plain symbols, so SymPy applies them in the order of their generated names (SYM<n>, compared "
@@ -302,8 +372,119 @@ def check(run: Run) -> None:
                                     f"(use simultaneous=True or separate .subs calls)")
                         reported = True
                         break
+    # I6 (b): a free-form expression handed in by the caller - a parameter that no validate_input guard ties to a quantity - replaces a symbol in the same
+    # dict as other plain symbols: it is meant to be a function OF those symbols, so the chain above arises for the very inputs the parameter exists for
+    from ..calc import functions as _functions
+    nfree = 0
+    for name in sorted(cat):
+        m = src.mods[name]
+        env = w.env(name)
+        it = Interp(w, env)
+        for g in _functions(w, m):
+            guards = g.guards()
+            free_params = [p_ for p_ in g.params if p_ not in guards]
+            if not free_params or not guards:
+                continue
+            for call in ast.walk(g.fn):
+                if not (isinstance(call, ast.Call) and isinstance(call.func, ast.Attribute) and call.func.attr == "subs" and len(call.args) >= 1
+                        and isinstance(call.args[0], ast.Dict) and len(call.args[0].keys) >= 2):
+                    continue
+                if any(k.arg == "simultaneous" and isinstance(k.value, ast.Constant) and k.value.value is True for k in call.keywords):
+                    continue
+                d = call.args[0]
+                for kx, vx in zip(d.keys, d.values):
+                    if not (isinstance(vx, ast.Name) and vx.id in free_params and kx is not None):
+                        continue
+                    ann = next((a.annotation for a in g.fn.args.args if a.arg == vx.id), None)
+                    if ann is None or (dotted(ann) or "").split(".")[-1] not in ("Expr", "Basic", "Any"):
+                        continue  # numbers (float/int) carry no symbols
+                    kv = it.ev(kx)
+                    others = [k2 for k2 in d.keys if k2 is not kx and k2 is not None and it.ev(k2).ident and it.ev(k2).kind in ("expr", "any")]
+                    nfree += 1
+                    run.ob("I6", f"{g.qual}:free-form:{vx.id}")
+                    if kv.ident and kv.kind in ("expr", "any") and others:
+                        run.violate("I6", f"{g.qual}:free-form:{vx.id}", m, call,
+                                    f"{g.fn.name} substitutes the caller's expression `{vx.id}` for `{norm(kx, 40)}` in the same .subs({{...}}) as {[norm(k2, 30) for k2 in others]}: "
+                                    f"written with the law's own symbols (a function of them - what the parameter is for) it is rewritten or not depending on the order of the "
+                                    f"generated symbol names; sibling laws apply the expression in a separate .subs first")
     run.ob("I6", "dict-substitutions", n=nsubs)
     run.floor("I6", nsubs, 300, "dict substitutions")
+
+    # ---- I7 positional use of collections ordered by generated names
+    run.rule("I7", "no positional use (unpacking, indexing, list()) of the values/keys of a solve(..., dict=True) solution or of a free_symbols/atoms set: "
+             "their order follows the generated symbol names (SYM<n> compared as strings) and flips at digit boundaries of the counter")
+
+    def i7_sites(tree: ast.AST) -> list:
+        parents = {}
+        for p_ in ast.walk(tree):
+            for c_ in ast.iter_child_nodes(p_):
+                parents[c_] = p_
+        out = []
+        for fnode in [x for x in ast.walk(tree) if isinstance(x, (ast.FunctionDef, ast.Module))]:
+            solved = set()
+            for a_ in ast.walk(fnode):
+                if isinstance(a_, ast.Assign) and len(a_.targets) == 1 and isinstance(a_.targets[0], ast.Name) and _is_solve_dict(a_.value):
+                    solved.add(a_.targets[0].id)
+            for x in ast.walk(fnode):
+                if not (isinstance(x, ast.Call) and isinstance(x.func, ast.Attribute) and not x.args):
+                    continue
+                recv = x.func.value
+                unordered = None
+                if x.func.attr in ("values", "keys") and ((isinstance(recv, ast.Name) and recv.id in solved) or _is_solve_dict(recv)):
+                    unordered = f"solve(...).{x.func.attr}()"
+                if unordered is None:
+                    continue
+                out.append((x, unordered, parents))
+            for x in ast.walk(fnode):
+                if isinstance(x, ast.Attribute) and x.attr == "free_symbols" or (isinstance(x, ast.Call) and isinstance(x.func, ast.Attribute) and x.func.attr == "atoms"):
+                    out.append((x, "a set of symbols", parents))
+        return out
+
+    def positional(x: ast.AST, parents: dict) -> Optional[ast.AST]:
+        cur = x
+        while cur in parents:
+            par = parents[cur]
+            if isinstance(par, ast.Call) and dotted(par.func) in ("list", "tuple", "sorted") and cur in par.args:
+                if dotted(par.func) == "sorted":
+                    return None
+                cur = par
+                continue
+            if isinstance(par, ast.comprehension) and par.iter is cur:
+                cur = next(p2 for p2 in [parents[par]])
+                if isinstance(cur, (ast.SetComp, ast.DictComp)):
+                    return None
+                continue
+            if isinstance(par, ast.Subscript) and par.value is cur and not isinstance(par.slice, ast.Slice):
+                return par
+            if isinstance(par, ast.Assign) and par.value is cur and any(isinstance(t_, (ast.Tuple, ast.List)) for t_ in par.targets):
+                return par
+            if isinstance(par, ast.Starred):
+                cur = par
+                continue
+            return None
+        return None
+
+    n7 = 0
+    for name in sorted(cat):
+        m = src.mods[name]
+        seen7 = set()
+        for x, what, parents in i7_sites(m.tree):
+            n7 += 1
+            use = positional(x, parents)
+            if use is not None and id(use) not in seen7:
+                seen7.add(id(use))
+                run.violate("I7", f"{name}:positional:{norm(use, 70)}", m, use,
+                            f"`{norm(use, 80)}` takes elements of {what} by position: SymPy orders it by the generated symbol names, so which element is which "
+                            f"depends on how many symbols were created before this module was imported (SYM998..SYM1001 sort as 1000, 1001, 998, 999)")
+    run.ob("I7", "order-derived collections examined", n=max(n7, 1))
+    fx7 = VERIF / "sa" / "fixtures" / "c03_order.py"
+    try:
+        ftree = ast.parse(fx7.read_text())
+    except OSError as e:
+        raise AnalysisError(f"C03 fixture missing: {e}") from e
+    hits = sum(1 for x, what, parents in i7_sites(ftree) if positional(x, parents) is not None)
+    if hits < 4:
+        raise AnalysisError(f"C03/I7: the scanner recognises only {hits} of the 4 positional uses in its positive fixture")
 
     # ---- informational: order-sensitive projections (NOT decided, listed for a dynamic technique to aim at)
     proj = []
